@@ -25,7 +25,7 @@ func init() {
 			"unary operands and filter/attribute bases are atoms or parenthesised; conditional parts that are not atoms are parenthesised; 'is defined' is parenthesised as an operand (the table does not rank these)",
 			"the reference interpreter (internal/mt) is trusted to transcribe the statement",
 		},
-		quick: 6000, thorough: 140000, minQuick: 1500, minThorough: 20000,
+		quick: 60000, thorough: 600000, minQuick: 15000, minThorough: 100000,
 	}})
 }
 
@@ -313,6 +313,9 @@ func (p *c08) runTree(rec *core.Recorder, class string, r *core.Rand, e mt.Expr,
 	c08Check(rec, class, set, main, ctx, &mt.Printer{Mode: mt.ParenRandom, R: r.Fork()}, "random-superset")
 	if r.P(1, 3) {
 		c08Check(rec, class, set, main, ctx, &mt.Printer{Mode: mt.ParenMinimal, Tight: true}, "minimal-tight")
+	}
+	if r.P(1, 3) {
+		c08Check(rec, class, set, main, ctx, &mt.Printer{Mode: mt.ParenRandom, R: r.Fork(), WideSpace: true}, "wide-spacing")
 	}
 }
 
